@@ -360,6 +360,7 @@ class World:
         tid = test._verif_id
         tspec = self.spec['tests'][tid]
         self.log.emit('T', t=tid, ph='cleanup%d' % i,
+                      it=self.iter_count.get(tid, 0),
                       out=stream_state('stdout'))
         self._actions(test, tspec['cleanups'][i])
 
@@ -405,6 +406,9 @@ class World:
             if a.get('only_parent') and is_child():
                 continue
             kind = a['a']
+            if self.spec.get('ref_mode') and kind in (
+                    'tstart', 'trelease', 'crash', 'signal', 'wait', 'sleep'):
+                continue
             if kind == 'ok':
                 continue
             elif kind == 'fail':
@@ -423,6 +427,7 @@ class World:
             elif kind == 'subtest':
                 with test.subTest(i=a.get('i', 0)):
                     self.log.emit('T', t=tid, ph='subtest%s' % a.get('i', 0),
+                                  it=self.iter_count.get(tid, 0),
                                   out=stream_state('stdout'))
                     self._actions(test, a.get('do', ()))
             elif kind == 'tstart':
